@@ -71,7 +71,7 @@ CHECKS = {
     "C10": (
         "runtime invariant monitor: view invariants after every committed operation and operation merge, own ancestry",
         "Random sequences (commit creation, rewrite, abandon, rebase_descendants, bookmark edits incl. conflicted/absent, edit/check_out in 1-3 workspaces, remove_head, concurrent transactions merged by merge_operations and load_at_head); after every commit, merge and fresh reload from disk: heads non-empty and an antichain under the harness' own ancestry, root only alone, every bookmark add and working-copy commit is an ancestor-or-equal of a head.",
-        "Ancestry comes from the harness' Dag, never from jj's index. Concurrent workloads avoid cross-reparenting (recorded under C13).",
+        "Ancestry comes from the harness' Dag, never from jj's index. New commits are also created on hidden (abandoned/rewritten) parents. Concurrent workloads avoid cross-reparenting (recorded under C13).",
     ),
     "C11": (
         "runtime invariant monitor: orphan / reference / change-id invariants after rebase_descendants with recorded intents",
@@ -225,7 +225,7 @@ CHECKS = {
     ),
     "C42": (
         "runtime monitor: immutable ids (evaluated before each command) must stay visible after it",
-        "Random immutable_heads() configurations (builtin, none(), tags(), bookmarks(), description globs, specific commits) and random mutating commands on random targets (half of them immutable) without --ignore-immutable; the immutable set is taken from jj before the command, afterwards every id in it must still be in all(); a snapshot on an immutable @ must create a single-parent child; a second workspace's @ made immutable from the first.",
+        "Random immutable_heads() configurations (builtin, none(), tags(), bookmarks(), description globs, specific commits) and random mutating commands (describe, squash, split, abandon, rebase, restore, duplicate, parallelize, absorb, metaedit, simplify-parents, file chmod, revert, diffedit with an editing tool, fix, resolve, sign/unsign, bookmark/tag/workspace commands) on random targets (half of them immutable) without --ignore-immutable; the immutable set is taken from jj before the command, afterwards every id in it must still be in all(); a snapshot on an immutable @ must create a single-parent child; a second workspace's @ made immutable from the first.",
         "undo, op restore, fetch and --at-op are excluded from this workload (they hide by time travel, not by rewriting).",
     ),
     "C34": (
